@@ -27,25 +27,32 @@ type h2stream struct {
 }
 
 type h2peerConn struct {
-	c     net.Conn
-	fr    *http2.Framer
-	wmu   sync.Mutex
-	mu    sync.Mutex
-	cond  *sync.Cond
-	st    map[uint32]*h2stream
-	last  uint32
-	gone  bool
-	acked bool  // our SETTINGS were acknowledged
-	wu0   int64 // sum of the WINDOW_UPDATE increments received for the connection (stream 0)
-	sent  int64 // DATA bytes written through dataFC
-	henc  *hpack.Encoder
-	hbuf  bytes.Buffer
+	c        net.Conn
+	fr       *http2.Framer
+	wmu      sync.Mutex
+	mu       sync.Mutex
+	cond     *sync.Cond
+	st       map[uint32]*h2stream
+	last     uint32
+	gone     bool
+	acked    bool           // our SETTINGS were acknowledged
+	hdec     *hpack.Decoder // one decoder for the connection, like a real peer: every block must decode
+	hblock   []byte
+	hfields  map[uint32]map[string]string // decoded request header fields per stream
+	hpackErr string
+	blocks   []uint32 // streams whose header block was decoded, in order
+	wu0      int64    // sum of the WINDOW_UPDATE increments received for the connection (stream 0)
+	sent     int64    // DATA bytes written through dataFC
+	henc     *hpack.Encoder
+	hbuf     bytes.Buffer
 }
 
 func newH2PeerConn(c net.Conn, settings ...http2.Setting) (*h2peerConn, error) {
 	p := &h2peerConn{c: c, st: map[uint32]*h2stream{}}
 	p.cond = sync.NewCond(&p.mu)
 	p.henc = hpack.NewEncoder(&p.hbuf)
+	p.hdec = hpack.NewDecoder(4096, nil)
+	p.hfields = map[uint32]map[string]string{}
 	c.SetDeadline(time.Now().Add(stepWait))
 	preface := make([]byte, len(http2.ClientPreface))
 	if _, err := io.ReadFull(c, preface); err != nil {
@@ -99,14 +106,18 @@ func (p *h2peerConn) readLoop() {
 			}
 		case *http2.HeadersFrame:
 			s := p.stream(f.StreamID)
+			p.hblock = append(p.hblock[:0], f.HeaderBlockFragment()...)
 			if f.HeadersEnded() {
+				p.decodeBlock(f.StreamID)
 				s.hdrDone = true
 			}
 			if f.StreamEnded() {
 				s.end = true
 			}
 		case *http2.ContinuationFrame:
+			p.hblock = append(p.hblock, f.HeaderBlockFragment()...)
 			if f.HeadersEnded() {
+				p.decodeBlock(f.StreamID)
 				p.stream(f.StreamID).hdrDone = true
 			}
 		case *http2.DataFrame:
@@ -125,6 +136,24 @@ func (p *h2peerConn) readLoop() {
 		p.cond.Broadcast()
 		p.mu.Unlock()
 	}
+}
+
+// decodeBlock: p.mu held.  A block that does not decode, or refers to a table entry the encoder
+// and this decoder do not share, is a connection error COMPRESSION_ERROR at a real peer.
+func (p *h2peerConn) decodeBlock(id uint32) {
+	fs, err := p.hdec.DecodeFull(p.hblock)
+	if err != nil {
+		if p.hpackErr == "" {
+			p.hpackErr = fmt.Sprintf("stream %d: %v", id, err)
+		}
+		return
+	}
+	m := map[string]string{}
+	for _, f := range fs {
+		m[f.Name] = f.Value
+	}
+	p.hfields[id] = m
+	p.blocks = append(p.blocks, id)
 }
 
 // wait until cond holds for the newest stream (bounded)
